@@ -123,7 +123,14 @@ class Node:
                         '{}\nInvalid value for a scalar with tag {}'.format(
                             self.yaml_node.start_mark, self.yaml_node.tag))
         if self.yaml_node.tag == 'tag:yaml.org,2002:bool':
-            return self.yaml_node.value in ['TRUE', 'True', 'true']
+            try:
+                # an explicitly tagged bool may be a YAML 1.1 one
+                return cast(bool, _scalar_constructor.construct_yaml_bool(
+                    self.yaml_node))
+            except KeyError:
+                raise RecognitionError(
+                        '{}\nInvalid value for a scalar with tag {}'.format(
+                            self.yaml_node.start_mark, self.yaml_node.tag))
         if self.yaml_node.tag == 'tag:yaml.org,2002:null':
             return None
         raise RuntimeError('This node with tag "{}" is not of the right type'
